@@ -1007,6 +1007,7 @@ class ManyToMany:
         self.inv.data[val].add(key)
 
     def remove(self, key, val):
+        hash(val)  # a set equal to a frozenset member passes set.remove() but cannot index the other side
         self.data[key].remove(val)
         if not self.data[key]:
             del self.data[key]
